@@ -261,13 +261,56 @@ impl Property for C17 {
             }
         }
         acc.count("chunks_fetched", reqs.len() as u64);
+        // The prescribed sequence (offsets = cumulative chunk sizes) is what a client that never re-requests
+        // sends; the property itself only demands: the documented command order, the URI verbatim, offsets
+        // starting at 0, strictly increasing, never beyond what has been received, finitely many.
+        let judge = |reqs: &[(String, String, usize)]| -> Result<(), String> {
+            let cmds: Vec<&str> = reqs.iter().map(|r| r.0.as_str()).collect();
+            let want_cmds: Vec<&str> = want_reqs.iter().map(|r| r.0.as_str()).collect();
+            let mut dedup = cmds.clone();
+            dedup.dedup();
+            let mut want_dedup = want_cmds.clone();
+            want_dedup.dedup();
+            if dedup != want_dedup {
+                return Err(format!("command order {:?}, prescribed {:?}", dedup, want_dedup));
+            }
+            if reqs.iter().any(|r| r.1 != uri) {
+                return Err("a request carries a different URI".into());
+            }
+            for cmd in ["readpicture", "albumart"] {
+                let offs: Vec<usize> = reqs.iter().filter(|r| r.0 == cmd).map(|r| r.2).collect();
+                let want_offs: Vec<usize> = want_reqs.iter().filter(|r| r.0 == cmd).map(|r| r.2).collect();
+                if offs.is_empty() != want_offs.is_empty() {
+                    return Err(format!("{} requests: sent {}, prescribed {}", cmd, offs.len(), want_offs.len()));
+                }
+                if offs.is_empty() {
+                    continue;
+                }
+                if offs[0] != 0 || offs.windows(2).any(|w| w[1] <= w[0]) {
+                    return Err(format!("{} offsets are not strictly increasing from 0: {:?}", cmd, &offs[..offs.len().min(12)]));
+                }
+                // never ask beyond what the server has handed out so far (a gap would lose bytes)
+                for (k, o) in offs.iter().enumerate() {
+                    let received_before: usize = offs[..k].iter().map(|p| art.limit.max(1).min(usize::MAX - p)).sum();
+                    if *o > received_before {
+                        return Err(format!("{} offset {} skips bytes (only {} received before)", cmd, o, received_before));
+                    }
+                }
+                if offs.len() > want_offs.len() * 2 + 2 {
+                    return Err(format!("{} requests for a picture that needs {}", offs.len(), want_offs.len()));
+                }
+            }
+            Ok(())
+        };
         if reqs != want_reqs {
-            let k = reqs.iter().zip(want_reqs.iter()).position(|(x, y)| x != y).unwrap_or(reqs.len().min(want_reqs.len()));
+            acc.inc("request_sequences_differing_from_the_minimal_one");
+        }
+        if let Err(why) = judge(&reqs) {
             acc.violation(
                 i,
                 None,
-                format!("art requests differ from the prescribed sequence at request {}: sent {:?}, prescribed {:?} ({} sent, {} prescribed; {})", k, reqs.get(k), want_reqs.get(k), reqs.len(), want_reqs.len(), class),
-                sess::detail(&sc, &out).set("class", class.clone()),
+                format!("art requests violate the request discipline: {} (sent {} requests, minimal sequence has {}; {})", why, reqs.len(), want_reqs.len(), class),
+                sess::detail(&sc, &out).set("class", class.clone()).set("requests", J::Arr(reqs.iter().take(40).map(|(c, u, o)| J::Str(format!("{} {:?} {}", c, u, o))).collect())),
             );
             return;
         }
@@ -290,7 +333,7 @@ impl Property for C17 {
     fn meta(&self, _cfg: &Cfg, _acc: &Acc) -> Meta {
         Meta {
             level: "exploration",
-            rule: "Client::album_art against the simulated server holding the picture: directed grid of chunk limits {1,2,64,4096,8192} x sizes {0,1,limit-1,limit,limit+1,2*limit,3*limit+7,5000,70000} x source {embedded, cover file reached through an empty readpicture reply or through ACK 5} x MIME present/absent; every other ACK code {1,2,3,4,50,52,56} on either command (must propagate), neither source, zero-byte pictures, albumart unknown; plus random sizes/limits; payloads incl. protocol look-alikes; 0-2 other callers and notifications running concurrently, chopped replies, read caps; oracle: returned bytes and MIME equal the stored picture / None / the server's error code, and the request lines seen by the server are exactly readpicture|albumart <uri> <offset> with offsets 0, limit, 2*limit, ... (strictly increasing, finitely many) and the documented fallback; non-trivial = load with >=2 chunks; distinct by (limit, size class, source, mime, concurrency)".into(),
+            rule: "Client::album_art against the simulated server holding the picture: directed grid of chunk limits {1,2,64,4096,8192} x sizes {0,1,limit-1,limit,limit+1,2*limit,3*limit+7,5000,70000} x source {embedded, cover file reached through an empty readpicture reply or through ACK 5} x MIME present/absent; every other ACK code {1,2,3,4,50,52,56} on either command (must propagate), neither source, zero-byte pictures, albumart unknown; plus random sizes/limits; payloads incl. protocol look-alikes; 0-2 other callers and notifications running concurrently, chopped replies, read caps; oracle: returned bytes and MIME equal the stored picture / None / the server's error code, and the request lines seen by the server are readpicture|albumart <uri> <offset> in the documented fallback order with offsets starting at 0, strictly increasing, never skipping bytes, finitely many (the minimal sequence 0, limit, 2*limit, ... is counted separately); non-trivial = load with >=2 chunks; distinct by (limit, size class, source, mime, concurrency)".into(),
             nontrivial_set: "nontrivial",
             assumptions: vec![
                 "well-behaved server: never a 0-byte chunk before the end, constant `size`".into(),
